@@ -14,7 +14,7 @@ import itertools
 
 import numpy as np
 
-from checks.common import relayout, xf_build, xf_names
+from checks.common import relayout, xf_build, xf_names, si_cells
 from qmc import gen as G
 from qmc import oracle as O
 from qmc.loader import load
@@ -28,8 +28,8 @@ RULE = (
     "sha1 of (input bytes, mode)"
 )
 BOUNDS = {
-    "quick": "m<=4 all 33 permutations (+ rank profiles: every (independent rows, pivot columns) pattern for m,n<=4; larger generic shapes 65x3, 70x4, 130x2, 3x70, 40x40), n in {1,m-1,m,m+1}, 3 letter kinds, 2 modes; singular cells m,n<=4; ties m<=3; generic m,n<=5",
-    "thorough": "m<=7 all 5913 permutations, n in {1,m-1,m,m+1,m+2}, 4 letter kinds, 2 modes; singular cells m,n<=5; ties m<=3; generic m,n<=6 x 4 fill rows",
+    "quick": "m<=4 all 33 permutations (+ rank profiles: every (independent rows, pivot columns) pattern for m,n<=4; larger generic shapes 65x3, 70x4, 130x2, 3x70, 40x40), n in {1,m-1,m,m+1}, 3 letter kinds, 2 modes; singular cells m,n<=4; ties m<=3; generic m,n<=5; exhaustive small-integer cells: all 2x2 over {0,1,-1,i,j,k}, 3x3 over {-1,0,1} (every 4th), 2x3/3x2 over {0,1,i,j} (every 4th)",
+    "thorough": "m<=7 all 5913 permutations, n in {1,m-1,m,m+1,m+2}, 4 letter kinds, 2 modes; singular cells m,n<=5; ties m<=3; generic m,n<=6 x 4 fill rows; exhaustive small-integer cells in full (2x2 over {0,1,-1,i,j,k}, 3x3 over {-1,0,1}, 2x3/3x2 over {0,1,i,j}) and 3x3 over {-1,0,1,2} (every 16th)",
 }
 THOROUGH_STREAMS = 3
 WALL_BUDGET = {"quick": 240, "thorough": 1800}
@@ -201,6 +201,11 @@ def cases(tier, seed):
             for nm in xf_names(m, n):
                 for mode in ("LU", "LUP"):
                     out.append({"key": f"xf/m={m}/n={n}/{nm}/{mode}", "cls": "xf", "m": m, "n": n, "xf": nm, "mode": mode})
+    # exhaustive small-integer matrices (every matrix over a small alphabet: exact ties, exact dependencies, exactly invariant subspaces)
+    for m, n, names in si_cells(tier):
+        for nm in names:
+            for mode in ("LU", "LUP"):
+                out.append({"key": f"si/m={m}/n={n}/{nm}/{mode}", "cls": "xf", "m": m, "n": n, "xf": nm, "mode": mode, "_fixed": True})
     GM = 5 if tier == "quick" else 6
     rows = 1 if tier == "quick" else 4
     for m in range(1, GM + 1):
